@@ -51,6 +51,19 @@ CLAIMED = {
              "are not exercised; the surviving-bin set is computed with the package's own filters",
         technique="contract-based: run-time contracts with a tiling oracle on seeded random bin tables (bounded stand-in)",
         design_ref="8 (C03)"),
+    "C04": dict(
+        category="other",
+        text="Run-time contracts (bounded stand-in) on the real do_fix / load_adjust_coverages: emitted bins = sample bins whose "
+             "coordinate-matched reference bin passes the filters, in genomic order; ValueError for a sample bin absent from "
+             "the reference or duplicated coordinates; corrections off: log2 = sample - reference + one constant per class; "
+             "each single correction (gc, edge formula) equals log2 minus the rolling median over bins ordered by the covariate; "
+             "centred on the autosomal chromosome medians; weights in [1e-4, 1], monotone in bin size and reference spread; "
+             "output unchanged by rescaling the sample depth and by permuting the rows of every input.",
+        note="rolling_median and the estimators are contracted under C19; invariance is a two-execution property only the "
+             "stand-in can check; covariates are generated without ties (ties are ordered by a seeded shuffle)",
+        technique="contract-based: run-time contracts with statement-derived oracles and metamorphic re-execution on seeded "
+                  "random references/samples (bounded stand-in)",
+        design_ref="8 (C04)"),
     "C08": dict(
         category="other",
         text="Run-time contracts (bounded stand-in) over real files: write -> read -> write -> read for tab, bed3, bed4, "
